@@ -113,6 +113,21 @@ func (e *Exec) execCall(f *Frame, b *ssa.BasicBlock, instr ssa.Instruction, c *s
 	}
 	if c.IsInvoke() {
 		recv := e.val(f, c.Value)
+		// devirtualise when the dynamic type of the receiver is statically known (a boxed value built here)
+		if bt, ok := e.boxType[recv.Term]; ok {
+			if _, hasSpec := specTable[fmt.Sprintf("(%s).%s", types.TypeString(c.Value.Type(), nil), c.Method.Name())]; !hasSpec {
+				if m := e.W.prog.LookupMethod(bt, c.Method.Pkg(), c.Method.Name()); m != nil && m.Blocks != nil && e.W.inRepo(m) {
+					cc.args = append(cc.args, Val{T: bt, Term: e.boxOf[recv.Term]})
+					for _, a := range c.Args {
+						cc.args = append(cc.args, e.val(f, a))
+					}
+					cc.fn = m
+					cc.key = m.String()
+					e.callFunction(cc, m, nil, result)
+					return
+				}
+			}
+		}
 		cc.args = append(cc.args, recv)
 		for _, a := range c.Args {
 			cc.args = append(cc.args, e.val(f, a))
@@ -561,7 +576,7 @@ func (e *Exec) callByContract(cc *callCtx, fn *ssa.Function, ctr *FuncContract, 
 	if os.Getenv("GOVC_DEBUG") != "" && e.discovery == 0 {
 		fmt.Fprintf(os.Stderr, "DEBUG call %s mods:\n", ctr.Name)
 		for _, m := range sortedKeys(ms) {
-			fmt.Fprintf(os.Stderr, "   %s %v\n", m, sortedKeys(ms[m]))
+			fmt.Fprintf(os.Stderr, "   %s %q\n", m, sortedKeys(ms[m]))
 		}
 	}
 	for k := range ms {
@@ -578,7 +593,10 @@ func (e *Exec) callByContract(cc *callCtx, fn *ssa.Function, ctr *FuncContract, 
 		if err != nil {
 			panic(fmt.Sprintf("fatal: contract of %s: %v", ctr.Name, err))
 		}
-		if e.rootCtr != nil && e.rootCtr.Writes != nil && e.discovery == 0 {
+		if ctr.Writes.Assumed {
+			e.assumes["assumed frame (not proved): "+ctr.Pkg+"."+ctr.Name+" writes "+ctr.Writes.Text] = true
+		}
+		if e.rootCtr != nil && e.rootCtr.Writes != nil && !e.rootCtr.Writes.Assumed && e.discovery == 0 {
 			for _, t := range targets {
 				goal := ""
 				if t.member == nil {
@@ -591,6 +609,15 @@ func (e *Exec) callByContract(cc *callCtx, fn *ssa.Function, ctr *FuncContract, 
 			}
 		}
 		apre := e.allocCtr(pre)
+		if _, ok := ms[allocComp]; ok {
+			olda := e.allocCtr(cc.st)
+			e.havocComp(cc.st, allocComp)
+			e.assume(app(">=", cc.st.comps[allocComp], olda), "")
+			delete(ms, allocComp)
+		}
+		savedPA := e.pendingAlloc
+		e.pendingAlloc = e.allocCtr(cc.st)
+		defer func() { e.pendingAlloc = savedPA }()
 		for _, m := range sortedKeys(ms) {
 			so := e.compSort[m]
 			if m == allocComp || !strings.HasPrefix(so, "(Array Int ") {
@@ -620,7 +647,7 @@ func (e *Exec) callByContract(cc *callCtx, fn *ssa.Function, ctr *FuncContract, 
 			e.assumeKeyed(nw, fmt.Sprintf("(forall ((rq Int)) (! (=> %s (= (select %s rq) (select %s rq))) :pattern ((select %s rq))))", And(cond...), nw, old, nw), "frame of "+ctr.Name+": writes "+ctr.Writes.Text)
 			delete(ms, m)
 		}
-	} else if e.rootCtr != nil && e.rootCtr.Writes != nil && e.discovery == 0 {
+	} else if e.rootCtr != nil && e.rootCtr.Writes != nil && !e.rootCtr.Writes.Assumed && e.discovery == 0 {
 		// callee without a writes clause: its discovered write set must lie inside the caller's footprint
 		for _, m := range sortedKeys(ms) {
 			so := e.compSort[m]
@@ -683,6 +710,7 @@ func (e *Exec) refBoundNew(s *State, v Val) {
 	if v.Term == "" {
 		return
 	}
+	e.refTyped(v)
 	if isRefLike(v.T) {
 		if _, isSig := unalias(v.T).Underlying().(*types.Signature); isSig {
 			return
